@@ -10,6 +10,13 @@ def jobs(tier):
         J.append(job(W, alg, 3, size=2)); J.append(job(W, alg, 4, size=2))
         if alg != 'cbldm':
             J.append(job(W, alg, 4, size=3, order='desc')); J.append(job(W, alg, 2, size=3))
+    # tier C: repeated values, 6-7 items (the search algorithms only start to improve on their first solution there)
+    for alg in ('snp', 'rnp', 'ckk', 'kk', 'greedy'):
+        J.append(job(W, alg, 6, size=3, order='asc', groups=[3, 2, 1])); J.append(job(W, alg, 6, size=3, order='asc', groups=[2, 2, 2]))
+    for alg in ('snp', 'rnp'):
+        J.append(job(W, alg, 7, size=4, order='asc', groups=[3, 2, 2])); J.append(job(W, alg, 7, size=4, order='asc', groups=[4, 3]))
+    for o in ('diff', 'min'):
+        J.append(job(W, 'cg', 6, size=3, obj=o, order='asc', groups=[3, 2, 1]))
     J.append(job(W, 'multifit', 4, size=2, iterations=2)); J.append(job(W, 'multifit', 3, size=3, iterations=1))
     for o in ('diff', 'max', 'min'):
         J.append(job(W, 'dp', 3, size=2, obj=o)); J.append(job(W, 'cg', 3, size=2, obj=o)); J.append(job(W, 'cg', 4, size=3, obj=o, order='desc'))
